@@ -520,7 +520,9 @@ def run(cx, rep):
                         cond_ok = True
                         for i in walk(fn):
                             if i["type"] in ("IfStatement", "ConditionalExpression") and any(x is prev for x in walk(i)) and not any(x is call for x in walk(i)):
-                                t = s(i["test"])
+                                # (a test read into a local first is the same test)
+                                al4 = ts_common.local_aliases(fn)
+                                t = s(i["test"]) + " " + " ".join(s(al4[x["value"]]) for x in walk(i["test"]) if x["type"] == "Identifier" and x["value"] in al4)
                                 if "hasDefinition(" not in t and "isDefinitionInProgress(" not in t:
                                     cond_ok = False
                         if not cond_ok:
@@ -541,3 +543,77 @@ def run(cx, rep):
     # ---------------------------------------------------------------- C02.11
     rep.rule("C02.11", "schema() reads every constructor argument it read on the reviewed tree")
     ts_common.field_matrix_rule(cx, rep, "C02.11", ['schema'])
+    # ---------------------------------------------------------------- C02.13
+    rep.rule("C02.13", "schema(): every element of an array-valued constructor argument is accounted for (no fixed-size prefix)")
+    ts_common.truncation_rule(cx, rep, "C02.13", ['schema'])
+    # ---------------------------------------------------------------- C02.14 (= C16.4)
+    rep.rule("C02.14", "schema printing keeps no state on the validator instances: every context is given the definitions its $refs need")
+    from rules.c16 import instance_state_rule
+    instance_state_rule(mod, mod.classes.get("SchemaPrintingContext"), rep, "C02.14")
+    # ---------------------------------------------------------------- C02.12
+    rep.rule("C02.12", "the schema table of a discriminated union narrows each variant to its key")
+    disc_schema_table_rule(cx, rep, "C02.12")
+
+
+def disc_schema_table_rule(cx, rep, rid):
+    """schema() of a discriminated union prints `oneOf` with one branch per discriminator KEY, taken from the last
+    constructor argument (the schema table the compiler emits).  A variant that carries several literals is listed
+    under each of them; unless the compiler narrows the variant's discriminator to the key of the entry, the branches
+    of those keys are the same schema and every value of the variant matches two of them: `oneOf` rejects what
+    validate() accepts (genuine defect repaired by efd9347).  Decided (a necessary condition): the code that builds the
+    LAST argument of `AnyOfDiscriminatedRuntype` - the initialiser of the local, with the project helpers it calls -
+    constructs a Runtype from a string that is not a literal (the key) through a Runtype constructor."""
+    import facts as RF
+    F = cx.rs
+    def builds_const_from_var(root, crate):
+        seen = set()
+        stack = [root]
+        while stack:
+            r = stack.pop()
+            for x in RF.walk(r):
+                if x["k"] not in ("Call", "MethodCall"):
+                    continue
+                cal = x.get("callee") if x["k"] == "Call" else (x.get("resolved") or x.get("callee"))
+                if not cal:
+                    continue
+                args = list(x.get("args") or [])
+                if "runtype::Runtype::" in cal and (x.get("ty") or "").endswith("runtype::Runtype") and args:
+                    if any((a.get("ty") or "").replace("&", "").strip() in ("str", "std::string::String") and a["k"] != "Lit" for a in args):
+                        return x
+                tg = F._callee_gid(crate, cal)
+                if tg in F.hir and tg not in seen:
+                    seen.add(tg)
+                    stack.append(F.hir[tg]["body"])
+        return None
+    n = 0
+    for g in sorted(F.hir):
+        f = F.fns.get(g)
+        if f is None or "/src/print/" not in (f.file or ""):
+            continue
+        body = F.hir[g]["body"]
+        for call in RF.walk(body):
+            if call["k"] != "Call":
+                continue
+            args = call.get("args") or []
+            if not (args and args[0].get("k") == "Lit" and args[0].get("v") == "AnyOfDiscriminatedRuntype"):
+                continue
+            arrs = [x for a in args[1:] for x in RF.walk(a) if x["k"] == "Array"]
+            if not arrs:
+                continue
+            elems = list(RF.children(arrs[0]))
+            if not elems:
+                continue
+            n += 1
+            last = elems[-1]
+            roots = [last]
+            lids = {p.get("lid") for p in RF.walk(last) if p["k"] == "Path" and p.get("res") == "local"}
+            for st in RF.walk(body):
+                if st["k"] == "LetStmt" and st.get("init") is not None and any(p.get("lid") in lids for p in RF.walk(st["pat"])):
+                    roots.append(st["init"])
+            hit = None
+            for r in roots:
+                hit = hit or builds_const_from_var(r, f.crate)
+            rep.ob(rid, "%s/schema-table-narrowed" % f.id.rsplit("::", 1)[-1], hit is not None,
+                   "%s passes a schema table to AnyOfDiscriminatedRuntype whose entries are never narrowed to their key (no Runtype is constructed from the key string): a variant with several discriminator literals is printed under each of them with the same body, `oneOf` then has two matching branches for every value of that variant and the schema rejects what validate() accepts" % f.id,
+                   "%s:%s" % (f.file, call["line"]), sample={"fn": f.id, "narrowing_call": (hit or {}).get("callee") or (hit or {}).get("resolved"), "line": (hit or {}).get("line")})
+    rep.floor(rid, "constructions of AnyOfDiscriminatedRuntype in the printer", n, 1)
